@@ -188,7 +188,10 @@ class Decoder:
                 raise RefUndef()
             items = []
             while pos < len(data):
-                v, pos = self.decode(e, pos, ctx)
+                v, npos = self.decode(e, pos, ctx)
+                if npos == pos:
+                    raise RefUndef()  # zero-sized elements up to the end of the stream: no extent is defined
+                pos = npos
                 items.append(v)
             return self._join(e, items), pos
         n = t.count if isinstance(t.count, int) else eval_count(t.count, ctx, cfg)
